@@ -83,3 +83,28 @@ theorem collect_eq (p : Node → Bool) (n : Node) :
 
 end Node
 end IastModel
+
+namespace IastModel
+namespace Node
+
+theorem name_beq_refl (n : Name) : (n == n) = true := by
+  cases n with
+  | user s => show (s == s) = true; simp
+  | temp k => show (k == k) = true; simp
+
+/-- equality up to positions is reflexive -/
+theorem eqNS_refl : ∀ n : Node, eqNS n n = true := by
+  intro n
+  induction n using Node.rec (motive_2 := fun l => eqNSL l l = true) with
+  | nil => rfl
+  | cons x xs hx hxs => simp [eqNSL, hx, hxs]
+  | ident nm sp => simp [eqNS, name_beq_refl]
+  | _ => simp_all [eqNS]
+
+theorem eqNSL_refl (l : List Node) : eqNSL l l = true := by
+  induction l with
+  | nil => rfl
+  | cons x xs ih => simp [eqNSL, eqNS_refl x, ih]
+
+end Node
+end IastModel
